@@ -74,6 +74,10 @@ TRUTH_NAMES = {
     ("gate", "t1"): ["01x90", "12y90", "02z90", "01y180", "identity"],
     ("gate", "q2"): ["cx", "cz", "swap", "zx90", "zz90"],
     ("mprocess", "q1", 2): ["x-type1", "y-type1", "z-type1", "x-type2", "z-type2"],
+    ("mprocess", "t1", 3): ["z3-type1", "z3-type2"],
+    ("mprocess", "t1", 2): ["z2-type1", "z2-type2"],
+    ("mprocess", "q2", 2): ["xxparity-type1", "zzparity-type1"],
+    ("mprocess", "q2", 4): ["bell-type1"],
 }
 
 
@@ -240,9 +244,18 @@ def model_coded(ctx, A, b, seq):
 
 
 def model_residual(ctx, A, b, f, x):
+    """exact |A x - (f-b)|^2 and A^T (A x - (f-b)).  Both are sums over the rows, so large matrices are sent to the model in
+    row blocks (the extracted list functions are not tail recursive: ~150k entries per request at most) and added exactly."""
     m_, n_ = A.shape
-    v = ctx.get_model().call("c09.residual", [m_, n_], rflat(A) + rflat(b) + list(f) + [float(t) for t in x])
-    return float(v[0]), [float(t) for t in v[1:]]
+    step = m_ if m_ * n_ <= 150000 else max(1, 100000 // n_)
+    f = list(f); xs = [float(t) for t in x]
+    r2, atr = Fraction(0), [Fraction(0)] * n_
+    for o in range(0, m_, step):
+        k = min(step, m_ - o)
+        v = ctx.get_model().call("c09.residual", [k, n_], rflat(A[o:o + k]) + rflat(b[o:o + k]) + f[o:o + k] + xs)
+        r2 += v[0]
+        atr = [a + t for a, t in zip(atr, v[1:])]
+    return float(r2), [float(t) for t in atr]
 
 
 def model_predict(ctx, A, b, v):
@@ -408,6 +421,8 @@ def chk_tomo(ctx, case):
             ctx.violation(sub, SITE_ONE, "sequence-vs-single", "single estimate raises %s where the sequence estimate returns" % type(r1).__name__, sc)
             continue
         singles.append(r1)
+        if maxabs(r1.estimated_var, xm) > tol * scale:
+            ctx.violation(sub, SITE_ONE, "value", "%s %s: calc_estimate differs from the exact least-squares solution by %.3g (tol %.3g) while calc_estimate_sequence agrees" % (lab0, d["label"], maxabs(r1.estimated_var, xm), tol * scale), sc)
         if len(r1.estimated_var_sequence) != 1 or maxabs(r1.estimated_var, xs_impl[i]) > 1e-12 * scale:
             ctx.violation(sub, SITE_ONE, "sequence-vs-single", "%s %s: single %s vs sequence element differ by %.3g" % (lab0, d["label"], i, maxabs(r1.estimated_var, xs_impl[i])), sc)
         # (e) sample counts: permuted / replaced counts give the same estimate
@@ -707,6 +722,11 @@ def chk_synthetic(ctx, case):
     lab = "%s:%s%s%s" % (case["label"], "inv" if ms["status"] == "inv" else "ker", ":unequal-blocks" if unequal else "", "" if wellformed else ":malformed-data")
     ctx.count(sub, key=(case["label"], case["id"]), nontrivial=(m_ >= 2 and n_ >= 2), label=lab + ":" + (("model-ok" if cst == "ok" else "model-err%s" % cval)))
     fullrank_impl = bool(qt.is_fullrank_matA())
+    # ---- (0a) the oracle behind the guard: np.linalg.matrix_rank == exact pivot count of the model (rank_of), every shape
+    np_rank = int(np.linalg.matrix_rank(A))
+    if np_rank != ms["rank"]:
+        ctx.violation(sub, "np.linalg.matrix_rank", "rank-oracle-vs-exact", "matA %dx%d (small integers times 2^%s): np.linalg.matrix_rank = %d, exact pivot count = %d" % (m_, n_, case.get("scale2", 0), np_rank, ms["rank"]), case)
+        return
     # ---- (0) the guard: is_fullrank_matA() == (exact rank == number of columns)  [exact small integers: no band needed]
     if ms["status"] == "ker":
         # not informationally complete (certified kernel vector): model raises at the guard, so must the implementation
@@ -798,14 +818,21 @@ def gen_synthetic(rng, idx):
             sizes = [s + 1 for s in sizes]; total = sum(sizes)
     rows = [[rng.randint(-3, 3) for _ in range(n)] for _ in range(total)]
     if shape == "tall-deficient" and n >= 2:
-        j = rng.randrange(n); others = [t for t in range(n) if t != j]
-        co = [rng.randint(-2, 2) for _ in others]
-        for r in rows:
-            r[j] = sum(c * r[t] for c, t in zip(co, others))
+        # rank n - d for a random d >= 1: d columns are integer combinations of the others
+        dep = rng.sample(range(n), rng.randint(1, n - 1))
+        others = [t for t in range(n) if t not in dep]
+        for j in dep:
+            co = [rng.randint(-2, 2) for _ in others]
+            for r in rows:
+                r[j] = sum(c * r[t] for c, t in zip(co, others))
+    # the whole matrix times 2^k (exact in binary floating point): rank, guard and invertibility are scale invariant
+    scale2 = rng.choice([0, 0, 0, -20, -9, 7, 20])
+    if scale2:
+        rows = [[Fraction(t) * Fraction(2) ** scale2 for t in r] for r in rows]
     bvec = [Fraction(rng.randint(-8, 8), 8) for _ in range(total)]
     A_blocks, b_blocks, o = [], [], 0
     for s in sizes:
-        A_blocks.append([[str(t) for t in r] for r in rows[o:o + s]]); b_blocks.append([fstr(t) for t in bvec[o:o + s]]); o += s
+        A_blocks.append([[fstr(t) for t in r] for r in rows[o:o + s]]); b_blocks.append([fstr(t) for t in bvec[o:o + s]]); o += s
     nseq = rng.randint(1, 3)
     seq, vars_ = [], []
     for _ in range(nseq):
@@ -838,11 +865,11 @@ def gen_synthetic(rng, idx):
     if shape != "malformed":
         shape = ("wide" if total < n else "square" if total == n else "tall") + ("-deficient" if shape == "tall-deficient" and n >= 2 else "") \
             + ("-unequal" if len(set(sizes)) > 1 else "")
-    return {"id": idx, "label": shape, "A": A_blocks, "b": b_blocks, "seq": seq, "vars": vars_}
+    return {"id": idx, "label": shape, "A": A_blocks, "b": b_blocks, "seq": seq, "vars": vars_, "scale2": scale2}
 
 
 def sub_synthetic(ctx):
-    cases = [gen_synthetic(ctx.rng, i) for i in range(ctx.n(220, 2500))]
+    cases = [gen_synthetic(ctx.rng, i) for i in range(ctx.n(1000 if getattr(ctx, "boost", False) else 220, 2500))]
     ctx.sample("synthetic", cases[0])
     ctx.run_cases("synthetic", chk_synthetic, cases)
 
@@ -1023,7 +1050,7 @@ def gen_history(rng, idx, quick):
 
 
 def sub_history(ctx):
-    cases = [gen_history(ctx.rng, i, ctx.quick) for i in range(ctx.n(12, 72))]
+    cases = [gen_history(ctx.rng, i, ctx.quick) for i in range(ctx.n(30 if getattr(ctx, "boost", False) else 12, 72))]
     ctx.sample("history", cases[0])
     ctx.run_cases("history", chk_history, cases)
 
@@ -1056,6 +1083,10 @@ def chk_large(ctx, case):
     tol = 1e-9 * max(1.0, kappa)
     for i, (ds, t) in enumerate(zip(seq, tv)):
         x = np.asarray(ires.estimated_var_sequence[i], dtype=float)
+        if i in (0, len(seq) - 1):      # the twin entry point calc_estimate on exact and on adversarial data
+            s1, r1 = impl_one(qt, ds)
+            if s1 != "ok" or maxabs(r1.estimated_var, x) > 1e-12 * (1.0 + float(np.abs(x).max())):
+                ctx.violation(sub, SITE_ONE, "sequence-vs-single", "large: calc_estimate(dataset %d) %s" % (i, "raises " + type(r1).__name__ if s1 != "ok" else "differs from the sequence element by %.3g" % maxabs(r1.estimated_var, x)), dict(case, focus=i))
         f = [float(v) for v in np.hstack([d for _, d in ds])]
         scale = 1.0 + float(np.abs(x).max())
         _, atr = model_residual(ctx, A, b, f, x)
@@ -1072,7 +1103,7 @@ def split_blocks_counts(vec, sizes):
 
 def sub_large(ctx):
     if ctx.quick:
-        ctx.note("large (2-qubit QPT, 576 x 256): thorough tier only")
+        ctx.note("large (2-qubit QPT 576x256, qutrit QMPT, 2-qubit QMPT 1152x512): thorough tier only")
         return
     cases = []
     for para in (False, True):
@@ -1080,6 +1111,13 @@ def sub_large(ctx):
                 "states": T_STATES["q2"]["complete"], "srate": 0, "povms": T_POVMS["q2"]["complete"], "prate": 0,
                 "truths": truth_specs(ctx.rng, "qpt", "q2", None, 2)}
         cases.append(case)
+        # measurement-process tomography beyond one qubit: qutrit (3- and 2-outcome instruments; 567x243 .. 378x153) and
+        # 2 qubits (parity instruments, 1152x512 / 1152x496)
+        for sysname, nout in (("t1", 3), ("t1", 2), ("q2", 2)):
+            cases.append({"kind": "qmpt", "sys": sysname, "para": para, "nout": nout, "tset": "complete", "seed": ctx.rng.randrange(10 ** 9),
+                          "states": T_STATES[sysname]["complete"], "srate": 0.03 if sysname == "t1" else 0,
+                          "povms": T_POVMS[sysname]["complete"], "prate": 0.05 if sysname == "t1" else 0,
+                          "truths": truth_specs(ctx.rng, "qmpt", sysname, nout, 2)})
     ctx.sample("large", cases[0])
     ctx.run_cases("large", chk_large, cases)
 
@@ -1088,21 +1126,96 @@ SUBS = [("tomo", sub_tomo), ("history", sub_history), ("rankdef", sub_rankdef), 
 FNS = {"synthetic": chk_synthetic, "tomo": chk_tomo, "rankdef": chk_rankdef, "large": chk_large, "history": chk_history}
 
 
+def regen_glue(ctx):
+    """translator tie (same protocol as flow.regen_check, with this property's own translator gen/c09_py2coq.py): regenerate
+    Gallina definitions of StandardQTomography.is_fullrank_matA, LinearEstimator.calc_estimate_sequence / calc_estimate and
+    the result accessors from the CURRENT source, compile them, and re-check coq/gen/C09_Equiv.v (regenerated == hand-written
+    model on all inputs; transported property theorems).  returns (ok, info)"""
+    import os, re, shutil, subprocess, sys
+    import runner
+    V = runner.V
+    scratch = os.path.join(getattr(ctx, "scratch", os.path.join(V, "build", ctx.prop_id)), "gen")
+    os.makedirs(scratch, exist_ok=True)
+    gen_v = os.path.join(scratch, "Gen_c09_linear.v")
+    for stem in (gen_v[:-2], os.path.join(scratch, "C09_Equiv")):
+        for ext in (".vo", ".vos", ".vok", ".glob"):
+            try:
+                os.remove(stem + ext)
+            except OSError:
+                pass
+    equiv = os.path.join(V, "coq", "gen", "C09_Equiv.v")
+    src = open(equiv).read()
+    src_nc = re.sub(r"\(\*.*?\*\)", " ", src, flags=re.S)
+    thms = re.findall(r"^\s*Theorem\s+([\w']+)", src_nc, flags=re.M)
+    ctx.theorems = list(ctx.theorems) + [t for t in thms if t not in ctx.theorems]
+    ctx.obligations += len(thms)
+    r = subprocess.run([sys.executable, os.path.join(V, "gen", "c09_py2coq.py"), os.environ.get("VERIF_REPO", "/repo"), gen_v],
+                       capture_output=True, text=True, timeout=120)
+    if r.returncode != 0:
+        return False, {"theorem": thms[0], "error": "translator rejected the source (outside its subset): " + (r.stdout + r.stderr)[-600:]}
+    q = ["-Q", os.path.join(V, "coq", "theories"), "QV", "-Q", scratch, "QVGen"]
+    r = subprocess.run(["timeout", "300", "coqc"] + q + [gen_v], capture_output=True, text=True)
+    if r.returncode != 0:
+        return False, {"theorem": thms[0], "error": "regenerated glue does not compile: " + (r.stdout + r.stderr)[-600:]}
+    dst = os.path.join(scratch, "C09_Equiv.v")
+    shutil.copy(equiv, dst)
+    r = subprocess.run(["timeout", "600", "coqc"] + q + [dst], capture_output=True, text=True)
+    out = r.stdout + r.stderr
+    if r.returncode != 0:
+        m_ = re.search(r"line (\d+), characters", out)
+        thm = None
+        if m_:
+            upto = "\n".join(src.splitlines()[:int(m_.group(1))])
+            names = re.findall(r"^\s*(?:Theorem|Lemma)\s+([\w']+)", upto, flags=re.M)
+            thm = names[-1] if names else None
+        return False, {"theorem": thm, "error": out[-800:]}
+    blocks = runner.parse_assumptions(out)
+    bad = [a for closed, axs in blocks for a in axs if a not in runner.ALLOWED_AXIOMS and a.split(".")[-1] not in runner.ALLOWED_AXIOMS]
+    if len(blocks) != len(thms) or bad:
+        return False, {"theorem": thms[0], "error": "assumption gate on regenerated proofs: %d blocks / %d theorems, disallowed %s" % (len(blocks), len(thms), bad)}
+    for t, (closed, axs) in zip(thms, blocks):
+        ctx.axioms[t] = "closed" if closed else sorted(set(axs))
+    ctx.discharged += len(thms)
+    return True, {}
+
+
 def run(ctx):
+    import runner
     ctx.rule = ("tomo: seeded configurations over {QST,POVMT,QPT,QMPT} x {full, equality-constrained parametrisation} x "
                 "{complete, over-complete, depolarised (asymmetric rates), re-ordered schedules, unequal outcome counts} x {1 qubit, qutrit"
                 " (+ 2 qubits thorough)}; per configuration: exact distributions of pure / interior / boundary-mixture truths, sampled data, "
                 "adversarial non-normalised dyadic vectors, exact predictions of arbitrary variable vectors. matA/vecB taken from the "
                 "implementation as exact rationals; inverse certified exactly (M G = I) before use. non-trivial = certified, kappa <= 1e8, "
-                "data not identically zero; distinct = (configuration label, dataset label, seed, index). rankdef: incomplete tester "
-                "subsets, kernel certified exactly, non-trivial = exactly rank deficient. synthetic: small exact matrices through the real "
-                "estimator / calc_matA / is_fullrank_matA, every branch of the estimator as coded compared; non-trivial = at least 2x2.")
+                "data not identically zero; distinct = (configuration label, dataset label, seed, index). history: pools of different "
+                "tomographies served by re-used estimator objects, non-trivial = the object already served another member of the same shape key. "
+                "rankdef: incomplete tester subsets, kernel certified exactly, non-trivial = exactly rank deficient. synthetic: small exact "
+                "matrices (times 2^k) through the real estimator / calc_matA / is_fullrank_matA / np.linalg.matrix_rank, every branch of the "
+                "estimator as coded compared; non-trivial = at least 2x2. large (thorough): 2-qubit QPT, qutrit and 2-qubit QMPT.")
     ctx.assumptions = [
-        "C09: np.linalg.inv / np.linalg.matrix_rank are oracles; their use is checked through the exact certificate M(A^T A)=I (or an exact kernel vector) on the same float matrix",
+        "C09: np.linalg.inv / np.linalg.matrix_rank are oracles; inv is checked through the exact certificate M(A^T A)=I (or an exact kernel vector) on the same float matrix, matrix_rank is compared with the exact pivot count",
         "C09: the forward model (matA, vecB = Born rule of the circuit) is C08's claim; exact recovery end-to-end uses quara's own generate_prob_dists_sequence as the source of exact data",
-        "C09: 2-qubit QPT (256 variables) is checked through exactly evaluated normal equations only (exact inverse ~2-3 min per configuration); qutrit / 2-qubit QMPT not run",
+        "C09: the glue of is_fullrank_matA / calc_estimate_sequence / calc_estimate / estimated_var(_sequence) is REGENERATED from the source (gen/c09_py2coq.py) and proved equal to the model on every run; the numpy primitives' semantics (Model/C09_PySem.v) stay hand-written",
+        "C09: 2-qubit QPT, qutrit QMPT and 2-qubit QMPT (256 .. 512 variables) are checked through exactly evaluated normal equations + exact recovery only (exact inverse out of budget)",
     ]
-    flow.standard_run(ctx, SUBS)
+    # flow.standard_run with this property's own translator tie (flow.regen_check is bound to gen/py2coq.py)
+    ok, info = runner.check_props(ctx)
+    ok2, info2 = regen_glue(ctx)
+    if not ok2:
+        ok, info = False, info2
+        ctx.boost = True          # widen the sweeps: look harder for a concrete failing input
+        ctx.note("regenerated-glue obligations (coq/gen/C09_Equiv.v) not discharged: %s" % str(info2)[:600])
+        ctx.note("translator tie broken: sub-checks synthetic / history run with enlarged sizes")
+    if not ok:
+        ctx.discharged = min(ctx.discharged, ctx.obligations - 1)
+    for name, fn in SUBS:
+        if ctx.only is None or name in ctx.only:
+            fn(ctx)
+    if not ok and not ctx.violations:
+        ctx.violation("theorems", "Props/%s.v + coq/gen/C09_Equiv.v" % ctx.prop_id, "theorem-broken:%s" % info.get("theorem"),
+                      "theorem %s no longer checks: %s" % (info.get("theorem"), info.get("error", "")[-500:]),
+                      {"theorem": info.get("theorem"), "error": info.get("error")}, no_input=True)
+    elif not ok:
+        ctx.note("theorem obligations not discharged: %s" % info)
 
 
 def replay(ctx, doc):
